@@ -81,3 +81,17 @@ Print Assumptions C01_any_state.
 Print Assumptions C01_reachable.
 Print Assumptions C01_alloc_in_bounds_disjoint_partial.
 Print Assumptions C01_zst.
+
+(* ---- tie to the source text: try_alloc_layout_fast as parsed from /repo/src on every run
+   (tools/rs2v.py -> LeafActual.v, evaluated by RustSem.eval) is the model's fast_ptr ---- *)
+From BV Require Import RustSem ConstsActual LeafActual LeafActualOk.
+From Coq Require Import String.
+Open Scope string_scope.
+Open Scope N_scope.
+Theorem C01_source_fast_path : forall m e0 start ptr l,
+  pow2 m -> pow2 (l_align l) -> m < W -> l_align l < W -> ptr < W -> start <= ptr ->
+  l_size l + (l_align l - 1) < W ->
+  call_fn src_fns (List.app (self_chunk start ptr) (cenv m)) "try_alloc_layout_fast" [vlayout l]
+  = Ret (vopt (fast_ptr (actual m e0) start ptr l)).
+Proof. exact src_try_alloc_layout_fast_ok. Qed.
+Print Assumptions C01_source_fast_path.
